@@ -150,7 +150,7 @@ func genCrashCase(r *rand.Rand, family string) SDCase {
 		var ops []SDOp
 		for _, o := range c.Ops {
 			// (a catalogue replica's content depends on the run: the judge's model cannot replay it)
-			if o.Kind != "restart" && o.Kind != "replicate" {
+			if o.Kind != "restart" && o.Kind != "replicate" && o.Kind != "setpubns" {
 				ops = append(ops, o)
 			}
 		}
